@@ -327,3 +327,228 @@ def _judge(out, r, mon, res, it, mode='both'):
 
 def errtext(e):
     return ' / '.join(str(a)[:80] for a in getattr(e, 'args', [e]))[:300]
+
+
+# ---- real contracts (scripts and recorded operations shipped with the repository's tests) --------------------------------
+def _comb_split(texpr, value):
+    """(type args as binary pair, [left value, right value]) of a pair node in any of its spellings, or None."""
+    a = texpr.get('args') or []
+    if len(a) > 2:
+        a = [a[0], {'prim': 'pair', 'args': a[1:]}]
+    vals = value if isinstance(value, list) else (value.get('args') if isinstance(value, dict) and value.get('prim') == 'Pair' else None)
+    if not vals or len(vals) < 2:
+        return None
+    return a, [vals[0], vals[1] if len(vals) == 2 else vals[1:]]
+
+
+def map_bigmaps(texpr, value, fn, path='$'):
+    """Rebuilds a Micheline value of type `texpr` with every node of type big_map replaced by fn(path, type expr, node)."""
+    p = texpr.get('prim')
+    a = texpr.get('args') or []
+    if p == 'big_map':
+        return fn(path, texpr, value)
+    if p == 'pair':
+        s = _comb_split(texpr, value)
+        if s is None:
+            return value
+        ta, va = s
+        return {'prim': 'Pair', 'args': [map_bigmaps(ta[0], va[0], fn, path + '.0'), map_bigmaps(ta[1], va[1], fn, path + '.1')]}
+    if p == 'option' and isinstance(value, dict) and value.get('prim') == 'Some':
+        return {'prim': 'Some', 'args': [map_bigmaps(a[0], value['args'][0], fn, path + '.some')]}
+    if p == 'or' and isinstance(value, dict) and value.get('prim') in ('Left', 'Right'):
+        i = 0 if value['prim'] == 'Left' else 1
+        return {'prim': value['prim'], 'args': [map_bigmaps(a[i], value['args'][0], fn, path + '.' + value['prim'])]}
+    if p == 'map' and isinstance(value, list):
+        return [{'prim': 'Elt', 'args': [x['args'][0], map_bigmaps(a[1], x['args'][1], fn, '%s[%d]' % (path, i))]} if isinstance(x, dict) and x.get('prim') == 'Elt' else x
+                for i, x in enumerate(value)]
+    if p == 'list' and isinstance(value, list):
+        return [map_bigmaps(a[0], x, fn, '%s[%d]' % (path, i)) for i, x in enumerate(value)]
+    return value
+
+
+def self_contained_storage(storage_texpr, recorded, diffs, fill=True):
+    """Recorded storages hold big-map ids. Each id is replaced by a literal big map: the entries that the recorded
+    lazy_storage_diff writes under that id (sorted by the model's key order) when fill is set, else the empty map."""
+    from rv.model import order as O
+    by_id = {}
+    for d in diffs or []:
+        if d.get('kind') == 'big_map':
+            by_id.setdefault(str(d.get('id')), []).extend((d.get('diff') or {}).get('updates') or [])
+
+    def fn(path, texpr, node):
+        if not (isinstance(node, dict) and 'int' in node):
+            return node
+        if not fill:
+            return []
+        kt = I.ty(texpr['args'][0])
+        vt = I.ty(texpr['args'][1])
+        ent = {}
+        for u in by_id.get(node['int'], []):
+            if u.get('value') is None or 'key' not in u:
+                continue
+            try:
+                k = P.parse(u['key'], kt)
+                P.parse(u['value'], vt)
+            except Exception:
+                continue
+            ent[repr(k)] = (k, u)
+        keys = O.sort_unique(kt, [k for k, _ in ent.values()])
+        return [{'prim': 'Elt', 'args': [ent[repr(k)][1]['key'], ent[repr(k)][1]['value']]} for k in keys]
+
+    return map_bigmaps(storage_texpr, recorded, fn)
+
+
+def run_real_contract(script, entrypoint, ep_path, ep_texpr, param_value, storage_value, env=None, mode='values'):
+    """One call of a real contract: pytezos through Interpreter.run_code under the instruction hook, then the reference
+    interpreter on the same (parameter, storage) pair with the operation-building instructions adopted from the hook trace.
+    Lock-step comparison, FAILWITH value, and the returned storage outside big maps."""
+    from pytezos.michelson.repl import Interpreter
+    out = Outcome()
+    sect = {s['prim']: s for s in script if isinstance(s, dict) and s.get('prim') in ('parameter', 'storage', 'code')}
+    ptx, stx, body = sect['parameter']['args'][0], sect['storage']['args'][0], sect['code']['args'][0]
+    try:
+        pt, st, et = I.ty(ptx), I.ty(stx), I.ty(ep_texpr)
+        pv = P.parse(param_value, et)
+        for c in reversed(ep_path):
+            pv = ('L' if c == 'L' else 'R', pv)
+        sv = P.parse(storage_value, st)
+    except (P.ParseError, P.Uncertain, KeyError, TypeError, ValueError, IndexError) as e:
+        out.kind, out.detail = 'unsupported', 'inputs not readable by the model: %r' % (e,)
+        return out
+    with H.monitoring(step_limit=400000) as mon:
+        try:
+            ops, storage, lazy_diff, stdout, error = Interpreter.run_code(
+                parameter=param_value, storage=storage_value, script=script, entrypoint=entrypoint, **env_kwargs(env or {}))
+        except H.HarnessAbort:
+            out.kind, out.mon, out.sig, out.detail = 'violation', mon, 'runaway', 'run_code executed more than 400000 instructions'
+            return out
+    out.mon = mon
+    out.returned = (ops, storage, lazy_diff, error)
+    if error is not None and not mon.events and not mon.raised:
+        out.kind, out.detail = 'unsupported', 'rejected before execution: %s' % errtext(error)
+        out.pre_error = error
+        return out
+    m = I.Machine(env, max_steps=400000, oracle=mon.events)
+    r = m.run(body, [(T.pair(pt, st), (pv, sv))])
+    r.adopted = m.adopted
+    out.model = r
+    if r.kind in ('unsupported', 'model-error'):
+        out.kind, out.detail = ('unsupported' if r.kind == 'unsupported' else 'inconclusive'), r.detail
+        return out
+    judge(out, r, mon, _Res(error), None, mode)
+    if out.kind == 'agree' and r.kind == 'ok' and error is None and mode != 'types':
+        want = r.stack[0][1][1]
+        try:
+            got = P.parse(map_bigmaps(stx, storage, lambda p_, t_, n_: []), st)
+        except Exception as e:
+            out.kind, out.sig, out.detail = 'violation', 'run_code|storage-unreadable', '%r: %r' % (storage, e)
+            return out
+        blank = blank_bigmaps(st, want)
+        if norm_value(got, st) != norm_value(blank, st):
+            out.kind, out.sig = 'violation', 'run_code|returned-storage-differs'
+            out.detail = 'storage (big maps blanked) %r, expected %r' % (got, blank)
+            return out
+        try:
+            out.bigmaps_compared, bad = check_lazy_diff(stx, st, sv, want, storage, lazy_diff)
+        except Exception as e:      # the diff has a shape the checker does not know: not judged
+            out.bigmaps_compared, bad = 0, None
+            out.lazy_diff_not_judged = repr(e)
+        if bad:
+            out.kind, out.sig, out.detail = 'violation', bad[0], bad[1]
+    return out
+
+
+def blank_bigmaps(t, v):
+    p = t[0]
+    if p == 'big_map':
+        return []
+    if p == 'pair':
+        return (blank_bigmaps(t[1], v[0]), blank_bigmaps(t[2], v[1]))
+    if p == 'option':
+        return None if v is None else ('Some', blank_bigmaps(t[1], v[1]))
+    if p == 'or':
+        return (v[0], blank_bigmaps(t[1] if v[0] == 'L' else t[2], v[1]))
+    if p == 'list':
+        return [blank_bigmaps(t[1], x) for x in v]
+    if p == 'map':
+        return [(k, blank_bigmaps(t[2], x)) for k, x in v]
+    return v
+
+
+def bigmaps_of(t, v, path='$', out=None):
+    """Model side: {path: (key type, value type, items)} of every big map in a model value."""
+    out = {} if out is None else out
+    p = t[0]
+    if p == 'big_map':
+        out[path] = (t[1], t[2], v[2] if isinstance(v, tuple) and v and v[0] == 'big_map' else v)
+    elif p == 'pair':
+        bigmaps_of(t[1], v[0], path + '.0', out)
+        bigmaps_of(t[2], v[1], path + '.1', out)
+    elif p == 'option' and v is not None:
+        bigmaps_of(t[1], v[1], path + '.some', out)
+    elif p == 'or':
+        bigmaps_of(t[1] if v[0] == 'L' else t[2], v[1], path + ('.Left' if v[0] == 'L' else '.Right'), out)
+    elif p == 'list':
+        for i, x in enumerate(v):
+            bigmaps_of(t[1], x, '%s[%d]' % (path, i), out)
+    elif p == 'map':
+        for i, (k, x) in enumerate(v):
+            bigmaps_of(t[2], x, '%s[%d]' % (path, i), out)
+    return out
+
+
+def check_lazy_diff(stx, st, initial, final, returned_storage, lazy_diff):
+    """The lazy storage diff of a finished call, applied to what each big map held before the call, must give what the
+    reference interpreter holds at the same place of the final storage; every entry must carry the script-expression hash
+    of its packed key. -> (number of big maps compared, None | (signature, detail))"""
+    nodes = {}
+    map_bigmaps(stx, returned_storage, lambda path, texpr, node: nodes.setdefault(path, node))
+    before, after = bigmaps_of(st, initial), bigmaps_of(st, final)
+    by_id = {}
+    for d in lazy_diff or []:
+        if d.get('kind') == 'big_map':
+            by_id.setdefault(str(d.get('id')), []).append(d.get('diff') or {})
+    compared = 0
+    for path, (kt, vt, items) in after.items():
+        node = nodes.get(path)
+        want = {repr(norm_value(k, kt)): norm_value(x, vt) for k, x in items}
+        if isinstance(node, dict) and 'int' in node:
+            diffs = by_id.get(node['int'], [])
+            if any(d.get('action') not in ('alloc', 'update') for d in diffs):
+                continue          # copy / remove actions: not modelled
+            cur = {}
+            if not any(d.get('action') == 'alloc' for d in diffs):
+                cur = {repr(norm_value(k, kt)): norm_value(x, vt) for k, x in before.get(path, (kt, vt, []))[2]}
+            for d in diffs:
+                for u in d.get('updates') or []:
+                    try:
+                        k = P.parse(u['key'], kt)
+                    except Exception as e:
+                        return compared, ('lazy-diff|key-unreadable', '%r: %r' % (u.get('key'), e))
+                    # combs of four or more leaves: the property does not fix the layout the hash is taken over (see C15)
+                    cands = {P.key_hash_of(k, kt), P.script_expr_hash(b'\x05' + MB.encode(P.render(k, kt, 'legacy_optimized')))}
+                    if u.get('key_hash') not in cands:
+                        return compared, ('lazy-diff|key-hash', 'key %r of type %s carries %s, its script-expression hash is %s'
+                                          % (u['key'], T.show(kt), u.get('key_hash'), sorted(cands)))
+                    if u.get('value') is None:
+                        cur.pop(repr(norm_value(k, kt)), None)
+                    else:
+                        try:
+                            cur[repr(norm_value(k, kt))] = norm_value(P.parse(u['value'], vt), vt)
+                        except Exception as e:
+                            return compared, ('lazy-diff|value-unreadable', '%r: %r' % (u.get('value'), e))
+        elif isinstance(node, list):
+            try:
+                cur = {repr(norm_value(k, kt)): norm_value(x, vt) for k, x in P.parse(node, ('map', kt, vt))}
+            except Exception as e:
+                return compared, ('lazy-diff|literal-unreadable', repr(e))
+        else:
+            continue
+        compared += 1
+        if cur != want:
+            missing = sorted(set(want) - set(cur))[:2]
+            extra = sorted(set(cur) - set(want))[:2]
+            wrong = sorted(k for k in set(cur) & set(want) if cur[k] != want[k])[:2]
+            return compared, ('lazy-diff|contents-differ', 'big map at %s: after applying the diff %d entries, the reference holds %d; missing %r, '
+                              'unexpected %r, different %r' % (path, len(cur), len(want), missing, extra, wrong))
+    return compared, None
